@@ -139,20 +139,17 @@ def check_create_index(rep, prog, fn):
         lowstore = counters[zero[0]][0]
 
         def atomize(leaf):
-            s = leaf.strip_all()
-            if s.k == 'CXXOperatorCallExpr' and s.op in ('==', '!=') and len(s.c) == 3:
-                a, b = s.c[1].strip_all(), s.c[2].strip_all()
-                for x, y in ((a, b), (b, a)):
-                    if x.k == 'CXXMemberCallExpr' and x.callee['name'] == 'find' and y.k == 'CXXMemberCallExpr' and y.callee['name'] == 'end' and \
-                            ex.var_of(x.object_arg()) == ex.var_of(y.object_arg()) and forest_set(prog, fn, ex.var_of(x.object_arg())):
-                        f = ex.f_atom('in_forest')
-                        return ex.f_not(f) if s.op == '==' else f
-            if s.k == 'CXXMemberCallExpr' and s.callee['name'] == 'count' and forest_set(prog, fn, ex.var_of(s.object_arg())):
-                return ex.f_atom('in_forest')
+            m = ex.membership(leaf)
+            if m is not None and forest_set(prog, fn, ex.var_of(m[0])):
+                f = ex.f_atom('in_forest')
+                return f if m[2] else ex.f_not(f)
             return None
         pc = guards_formula(cfg, lowstore, atomize)
         atoms = ex.f_atoms(pc)
         if 'in_forest' not in atoms:
+            if ex.opaque_nodes(fn, pc):
+                rep.undecided('R16a', loop, fn, what, 'arm guard `%s` is outside the membership idiom table' % ex.opaque_nodes(fn, pc)[0].text(40))
+                return
             problems.append('the arm is not chosen by membership of the edge in the spanning forest')
         else:
             others = [a for a in atoms if a != 'in_forest']
